@@ -696,7 +696,7 @@ func (e *ArithmeticExpression) Evaluate(ctx *Context, input system.Collection) (
 	rightPrimitive = system.Normalize(rightPrimitive, leftPrimitive)
 
 	result, err := e.Op(leftPrimitive, rightPrimitive)
-	if errors.Is(err, system.ErrIntOverflow) {
+	if errors.Is(err, system.ErrIntOverflow) || errors.Is(err, errDivideByZero) {
 		return system.Collection{}, nil // "Operations that cause arithmetic overflow or underflow will result in empty ( { } )".
 	}
 	if err != nil {
